@@ -273,6 +273,8 @@ class Flags:
     abstract_mul = False      # symbolic*symbolic -> uninterpreted MUL (forking runs over field code)
     pow_stub = None           # domain-specific contract for pow() with symbolic operands
     bitlen_bound = 64         # bit_length() of a symbolic int forks over 0..bound
+    mul_hook = None           # domain layer may reinterpret a product of two symbolic ints
+    int_lift = None           # domain layer may reclassify an integer produced by int(hex, 16)
 
 
 def _isint(o):
@@ -300,6 +302,10 @@ class SymInt:
     def __mul__(s, o):
         if not _isint(o):
             return NotImplemented
+        if Flags.mul_hook is not None and isinstance(o, SymInt):
+            r = Flags.mul_hook(s, o)
+            if r is not None:
+                return r
         if Flags.abstract_mul and isinstance(o, SymInt):
             a, b = (s.t, o.t) if s.t.get_id() <= o.t.get_id() else (o.t, s.t)
             return SymInt(MUL(a, b))
